@@ -72,16 +72,24 @@ def _norm_text(t):
     return '\n'.join(lines)
 
 
+_RENDERERS = {}
+
+
 def _render(m, fmt):
+    """one renderer object per format for the whole history (a process-lifetime in the forked child): what a
+    renderer keeps from one message must not show in the next. The reference renders in a process of its own."""
     from pybufrkit.renderer import FlatTextRenderer, NestedTextRenderer, FlatJsonRenderer, NestedJsonRenderer
     from pybufrkit.utils import JSON_DUMPS_KWARGS
+    if not _RENDERERS:
+        _RENDERERS.update({'flat_text': FlatTextRenderer(), 'nested_text': NestedTextRenderer(),
+                           'flat_json': FlatJsonRenderer(), 'nested_json': NestedJsonRenderer()})
     if fmt == 'flat_text':
-        return _h(_norm_text(FlatTextRenderer().render(m)))
+        return _h(_norm_text(_RENDERERS[fmt].render(m)))
     if fmt == 'nested_text':
-        return _h(_norm_text(NestedTextRenderer().render(m)))
+        return _h(_norm_text(_RENDERERS[fmt].render(m)))
     if fmt == 'flat_json':
-        return _h(json.dumps(FlatJsonRenderer().render(m), sort_keys=True, **JSON_DUMPS_KWARGS))
-    return _h(json.dumps(NestedJsonRenderer().render(m), sort_keys=True, **JSON_DUMPS_KWARGS))
+        return _h(json.dumps(_RENDERERS[fmt].render(m), sort_keys=True, **JSON_DUMPS_KWARGS))
+    return _h(json.dumps(_RENDERERS['nested_json'].render(m), sort_keys=True, **JSON_DUMPS_KWARGS))
 
 
 def _digest(m, full=True):
